@@ -4,6 +4,7 @@ mod engine;
 mod exact;
 mod gen;
 mod oracle;
+mod p2ref;
 mod props;
 mod types;
 
